@@ -53,6 +53,8 @@ M = [
  ("c14-net-tx-received-header-from-header-chain", "C14", "servers/src/common/adapters.rs", "\t\tlet header = self.chain().head_header()?;\n\n\t\tfor hook in &self.hooks {\n\t\t\thook.on_transaction_received(&tx);", "\t\tlet header = self.chain().get_block_header(&self.chain().header_head()?.last_block_h)?;\n\n\t\tfor hook in &self.hooks {\n\t\t\thook.on_transaction_received(&tx);", ["C14"]),
  ("c14-mine-block-ignores-fees", "C14", "servers/src/mining/mine_block.rs", "\tlet fees = txs.iter().map(|tx| tx.fee()).sum();", "\tlet fees = txs.iter().map(|tx| tx.fee()).sum::<u64>() * 0;", ["C14"]),
  ("c03-net-adapter-drops-blocks-below-head", "C03", "servers/src/common/adapters.rs", "\t\t\tif b.header.height < horizon {", "\t\t\tif b.header.height < horizon || b.header.height < head.height {", ["C03"]),
+ ("c11-net-get-block-handler-unwraps", "C11", "servers/src/common/adapters.rs", "\t\t\t\t3..=ProtocolVersion::MAX => Some(b),\n\t\t\t})\n\t\t\t.unwrap_or(None)", "\t\t\t\t3..=ProtocolVersion::MAX => Some(b),\n\t\t\t})\n\t\t\t.unwrap()", ["C11"]),
+ ("c11-net-segment-height-range-dropped", "C11", "servers/src/common/adapters.rs", "\t\tif !KERNEL_SEGMENT_HEIGHT_RANGE.contains(&id.height) {", "\t\tif false && !KERNEL_SEGMENT_HEIGHT_RANGE.contains(&id.height) {", ["C11"]),
  ("c18-resize-check-skipped-when-busy", "C18", "store/src/lmdb.rs", "\t\t\tif nested_tx {\n\t\t\t\treturn;\n\t\t\t}\n\t\t\tthread::sleep(Duration::from_millis(1));", "\t\t\tlet _ = nested_tx;\n\t\t\treturn;", ["C18"]),
 ]
 
